@@ -14,6 +14,7 @@
 From Coq Require Import ZArith List Bool Arith.
 Import ListNotations.
 From GV Require Import Common.Wire gen.Gen_memo C01.Heap.
+From GV Require gen.Gen_combine.
 Close Scope Z_scope.
 
 (* ------------------------------------------------------------------ specification *)
@@ -256,6 +257,102 @@ Definition napply_mode (c : ccfg) (m : mode) (old new : nexpr) (next : nat) : ne
 Definition napply_modes (c : ccfg) (s0 : nexpr) (ops : list (mode * nexpr)) (next : nat) : nexpr * nat :=
   fold_left (fun sk mo => napply_mode c (fst mo) (fst sk) (snd mo) (snd sk)) ops (s0, next).
 
+(* ------------------------------------------------------------------ combine_multiple *)
+(* glue.core.subset.combine_multiple(subsets, operator): the empty selection SubsetState() for no operand, the operand itself
+   for one, else operator(... operator(operator(s0, s1), s2) ..., sn): the LEFT fold of the binary constructor, which copies
+   both operands at every step.  [emp] is the leaf that stands for the empty selection, [femp] its function cache. *)
+Definition ebin (op : binop) (a b : expr) : expr :=
+  match op with BAnd => And a b | BOr => Or a b | BXor => Xor a b end.
+
+Definition ecombine (emp : nat) (op : binop) (l : list expr) : expr :=
+  match l with
+  | [] => Leaf emp
+  | s0 :: rest => fold_left (ebin op) rest s0
+  end.
+
+Definition ncombine (c : ccfg) (femp : option nat) (emp : nat) (op : binop) (l : list nexpr) (next : nat) : nexpr * nat :=
+  match l with
+  | [] => (NLeaf next femp emp, S next)
+  | s0 :: rest => fold_left (fun sk x => nbin c op (fst sk) x (snd sk)) rest (s0, next)
+  end.
+
+(* the elementwise reduction of the masks of the operands *)
+Definition combine_masks (zero : mask) (op : binop) (ms : list mask) : mask :=
+  match ms with
+  | [] => zero
+  | m :: t => fold_left (map2 (bop op)) t m
+  end.
+
+(* ------------------------------------------------------------------ the entry points translated from the source *)
+(* coq/gen/Gen_combine.v (tools/gen/gen_combine.py) is the current source of SubsetState.__and__ ..., combine_multiple, _combine,
+   the operators of Subset / SubsetGroup and the edit modes, over abstract primitives.  Two instances:
+   expressions (a copy denotes the same selection), and computations that build identified objects. *)
+Definition eprims (emp : nat) : Gen_combine.prims expr :=
+  Gen_combine.mkprims expr (Leaf emp) And Or Xor Not (fun e => e).
+
+(* a computation: given the next unused identity, the object it yields and the next unused identity afterwards *)
+Definition comp : Type := nat -> nexpr * nat.
+Definition cret (e : nexpr) : comp := fun k => (e, k).                (* an object that exists already *)
+Definition cbin (c : ccfg) (op : binop) (fa fb : comp) : comp :=
+  fun k => let '(a, k1) := fa k in let '(b, k2) := fb k1 in nbin c op a b k2.
+Definition cnot (c : ccfg) (fa : comp) : comp := fun k => let '(a, k1) := fa k in nnot c a k1.
+Definition ccopy (fa : comp) : comp := fun k => let '(a, k1) := fa k in ncopy a k1.
+Definition cnew (femp : option nat) (emp : nat) : comp := fun k => (NLeaf k femp emp, S k).
+Definition cprims (c : ccfg) (femp : option nat) (emp : nat) : Gen_combine.prims comp :=
+  Gen_combine.mkprims comp (cnew femp emp) (cbin c BAnd) (cbin c BOr) (cbin c BXor) (cnot c) ccopy.
+
+(* operator.and_ / or_ / xor as the binary function combine_multiple is given *)
+Definition gen_bin {S : Type} (P : Gen_combine.prims S) (op : binop) : S -> S -> S :=
+  match op with
+  | BAnd => Gen_combine.state_and S P
+  | BOr => Gen_combine.state_or S P
+  | BXor => Gen_combine.state_xor S P
+  end.
+
+Definition gen_mode {S : Type} (P : Gen_combine.prims S) (m : mode) : S -> S -> S :=
+  match m with
+  | MReplace => Gen_combine.ReplaceMode S P
+  | MNew => Gen_combine.NewMode S P
+  | MAnd => Gen_combine.AndMode S P
+  | MOr => Gen_combine.OrMode S P
+  | MXor => Gen_combine.XorMode S P
+  | MAndNot => Gen_combine.AndNotMode S P
+  end.
+
+(* the generated combine_multiple on expressions / on objects (None: the generated code raises) *)
+Definition gcombine_e (emp : nat) (op : binop) (l : list expr) : option expr :=
+  Gen_combine.combine_multiple expr (eprims emp) l (gen_bin (eprims emp) op).
+
+Definition gcombine_n (c : ccfg) (femp : option nat) (emp : nat) (op : binop) (l : list nexpr) (next : nat) : option (nexpr * nat) :=
+  match Gen_combine.combine_multiple comp (cprims c femp emp) (map cret l) (gen_bin (cprims c femp emp) op) with
+  | Some f => Some (f next)
+  | None => None
+  end.
+
+(* the generated edit modes on objects *)
+Definition gapply_mode_n (c : ccfg) (m : mode) (old new : nexpr) (next : nat) : nexpr * nat :=
+  gen_mode (cprims c None 0) m (cret old) (cret new) next.
+
+Definition gapply_modes_n (c : ccfg) (s0 : nexpr) (ops : list (mode * nexpr)) (next : nat) : nexpr * nat :=
+  fold_left (fun sk mo => gapply_mode_n c (fst mo) (fst sk) (snd mo) (snd sk)) ops (s0, next).
+
+(* the operators of Subset ([how] = 0, through _combine) and SubsetGroup ([how] = 1) objects; [k] = 1 and, 2 or, 3 xor, 4 invert *)
+Definition gvia_n (c : ccfg) (how k : nat) (a : nexpr) (b : option nexpr) (next : nat) : option (nexpr * nat) :=
+  let P := cprims c None 0 in
+  let run (f : comp) := Some (f next) in
+  let orun (f : option comp) := match f with Some g => Some (g next) | None => None end in
+  match how, k, b with
+  | 0, 1, Some b' => orun (Gen_combine.Subset_and comp P (cret a) (cret b'))
+  | 0, 2, Some b' => orun (Gen_combine.Subset_or comp P (cret a) (cret b'))
+  | 0, 3, Some b' => orun (Gen_combine.Subset_xor comp P (cret a) (cret b'))
+  | 0, 4, None => orun (Gen_combine.Subset_invert comp P (cret a))
+  | 1, 1, Some b' => run (Gen_combine.Group_and comp P (cret a) (cret b'))
+  | 1, 2, Some b' => run (Gen_combine.Group_or comp P (cret a) (cret b'))
+  | 1, 3, Some b' => run (Gen_combine.Group_xor comp P (cret a) (cret b'))
+  | 1, 4, None => run (Gen_combine.Group_invert comp P (cret a))
+  | _, _, _ => None
+  end.
+
 (* ------------------------------------------------------------------ wire *)
 Definition zn (z : Z) : nat := Z.to_nat z.
 Definition nz (n : nat) : Z := Z.of_nat n.
@@ -377,7 +474,7 @@ Definition run_case (t : tree) : tree :=
   | T 3 [lmt; T d _; T v _; s0; T _ ops; T next _] =>
     match dec_nexpr s0, sequence (map dec_modeop ops) with
     | Some s, Some ops' =>
-      let '(fin, _) := napply_modes table_cfg s ops' (zn next) in
+      let '(fin, _) := gapply_modes_n table_cfg s ops' (zn next) in
       T 1 [enc_nexpr fin;
            bools (eval (fun n => lm_lookup (dec_lm lmt) n (zn d) (zn v)) (erase fin));
            bools (eval (fun n => lm_lookup (dec_lm lmt) n (zn d) (zn v))
@@ -389,6 +486,32 @@ Definition run_case (t : tree) : tree :=
     match dec_nexpr e with
     | Some e' => T 1 [enc_nexpr (fst (ncopy e' (zn next)))]
     | None => err 1
+    end
+  (* 6: combine_multiple(operands, operator): the object it returns, its mask, the elementwise reduction of the operands' masks *)
+  | T 6 [lmt; T d _; T v _; T k _; T emp _; T _ operands; T next _] =>
+    match op_of_kind (zn k), sequence (map dec_nexpr operands) with
+    | Some op, Some l =>
+      let lmf := fun n => lm_lookup (dec_lm lmt) n (zn d) (zn v) in
+      match gcombine_n table_cfg (memo_of cls_SubsetState) (zn emp) op l (zn next) with
+      | Some (fin, _) =>
+        T 1 [enc_nexpr fin; bools (eval lmf (erase fin)); bools (combine_masks (lmf (zn emp)) op (map (fun e => eval lmf (erase e)) l))]
+      | None => err 3
+      end
+    | _, _ => err 1
+    end
+  (* 7: an operator of Subset / SubsetGroup objects applied to one or two existing states: the object it returns *)
+  | T 7 [T how _; T k _; a; T _ bs; T next _] =>
+    match dec_nexpr a, sequence (map dec_nexpr bs) with
+    | Some a', Some bl =>
+      match (match bl with [] => Some None | [b'] => Some (Some b') | _ => None end) with
+      | Some ob =>
+        match gvia_n table_cfg (zn how) (zn k) a' ob (zn next) with
+        | Some (fin, _) => T 1 [enc_nexpr fin]
+        | None => err 3
+        end
+      | None => err 1
+      end
+    | _, _ => err 1
     end
   (* 5: the class table as the model sees it: (memoised?, kind, detail) of a class index *)
   | T 5 [T c _] =>
